@@ -189,6 +189,11 @@ def decorate(ch: Choices, cer: gw.Ceremony, base: Psbt) -> tuple[Psbt, set[Atom]
 def _lock_time_layout(ch: Choices, p: Psbt) -> set[Atom]:
     """Say the version 2 lock time another way without changing it; return what every copy needs to compute it."""
     lock = p.lock_time
+    # whatever layout the ceremony chose (gen/wallets may state it through required lock times): back to the
+    # fallback alone first, so that what every copy needs is exactly what this function returns
+    for m in p.inputs:
+        m.required_height_lock_time = m.required_time_lock_time = None
+    p.fallback_lock_time = lock
     layout = ch.draw(3, "deco.locktime.layout")
     if lock == 0:
         # None and 0 both mean 0: an atom like any other
